@@ -32,12 +32,18 @@ VarTypes == {<<"uint256", U256>>, <<"address", Ty("address", 0)>>, <<"bool", Ty(
              <<"payable", Ty("address payable", 0)>>, <<"int128", Ty("int", 128)>>, <<"bytes", Ty("bytes", 0)>>,
              <<"string", Ty("string", 0)>>, <<"user", Var("Foo")>>, <<"array", N("E.ArraySubscript", A0, <<<<U256>>, <<>>>>)>>,
              <<"mapping", N("E.Type", [ty |-> "mapping", n |-> 0], <<<<Ty("address", 0)>>, <<U256>>>>)>>}
+OverrideOrders == << <<"public", "constant", "override">>, <<"public", "override", "constant">>, <<"override", "constant", "public">>,
+                     <<"internal", "constant", "override">>, <<"constant", "override">>, <<"public", "override">>, <<"public", "immutable", "override">>,
+                     <<"private", "constant", "override">> >>
 VarProduct ==
     {I("var:" \o x[1][1] \o ":" \o x[2] \o ":" \o x[3] \o ":" \o x[4], "CP",
        StateVar(x[4], x[1][2],
                 (IF x[2] = "" THEN <<>> ELSE <<x[2]>>) \o (IF x[3] = "plain" THEN <<>> ELSE <<x[3]>>),
                 IF x[3] = "constant" THEN <<Num("1")>> ELSE <<>>))
        : x \in VarTypes \X {"", "public", "internal", "private"} \X {"plain", "constant", "immutable"} \X {"vv", "_vv"}}
+    \* ... with an `override` specifier among the attributes, in every order: one more attribute, nothing else
+    \cup {I("var:override:" \o ToString(k) \o ":" \o nm, "CP", StateVar(nm, U256, OverrideOrders[k], IF \E j \in 1 .. Len(OverrideOrders[k]) : OverrideOrders[k][j] = "constant" THEN <<Num("1")>> ELSE <<>>))
+           : k \in 1 .. Len(OverrideOrders), nm \in {"vv", "_vv"}}
 
 \* C06: constructor order -- arrangements of members in one contract ---------------------------------
 MemberOf(tag, i) ==
@@ -98,6 +104,10 @@ SenderUses ==     \* <<label, guard statements before the call, payout argument>
      <<"require-eq", <<ExprStmt(CallNamed("require", <<Bin("E.Equal", MsgSender, Owner)>>))>>, Payable(Owner)>>,
      <<"require-eq-rev", <<ExprStmt(CallNamed("require", <<Bin("E.Equal", Owner, MsgSender), Str("no")>>))>>, Payable(Owner)>>,
      <<"check-call", <<ExprStmt(CallNamed("check", <<MsgSender>>))>>, Payable(Owner)>>,
+     \* the sender in a later argument position, in a nested call, as the later argument of a comparison-taking call
+     <<"check-call-2nd", <<ExprStmt(CallNamed("checkRole", <<Var("ADMIN"), MsgSender>>))>>, Payable(Owner)>>,
+     <<"require-nested-2nd", <<ExprStmt(CallNamed("require", <<CallNamed("hasRole", <<Var("ADMIN"), MsgSender>>), Str("no")>>))>>, Payable(Owner)>>,
+     <<"enforce-3rd", <<ExprStmt(CallNamed("enforce", <<Var("ADMIN"), Num("1"), Bin("E.Equal", MsgSender, Owner)>>))>>, Payable(Owner)>>,
      <<"if-revert", <<N("S.If", A0, <<<<Bin("E.NotEqual", MsgSender, Owner)>>, <<N("S.Revert", [error |-> ""], <<<<>>>>)>>, <<>>>>)>>, Payable(Owner)>>,
      <<"check-in-payout", <<>>, CallNamed("pick", <<MsgSender>>)>>,
      \* other calls of the function whose arguments are member accesses on something that is not an identifier path
